@@ -150,3 +150,62 @@ def basis(shape):
     new leading axis: (prod(shape), *shape)."""
     n = int(np.prod(shape))
     return np.eye(n).reshape((n,) + tuple(shape))
+
+
+# -------------------------------------------------------------- pyramids
+def pyr_shapes(size, L, mode, J):
+    """Forward-compatible coefficient shapes from PyWavelets' length rule
+    (never from the library's forward): (lowpass shape, [detail shapes finest
+    first]); 2-D details carry the leading 3."""
+    per_axis = [level_lengths(n, L, mode, J)[1] for n in size]
+    if len(size) == 1:
+        ks = per_axis[0]
+        return (ks[-1],), [(k,) for k in ks]
+    kh, kw = per_axis
+    return (kh[-1], kw[-1]), [(3, a, b) for a, b in zip(kh, kw)]
+
+
+def basis_rows(total, k, cap=640, sub=48):
+    """Identity (total x total) if small, else `sub` generated unit rows."""
+    if total <= cap:
+        return np.eye(total), True
+    idx = np.random.RandomState(k).choice(total, sub, replace=False)
+    M = np.zeros((sub, total))
+    M[np.arange(sub), idx] = 1.0
+    return M, False
+
+
+def split_flat(M, lo_shape, hi_shapes):
+    """(T,total) -> yl (T,*lo), [yh_j (T,*hi_j)] in flat1 order."""
+    T = M.shape[0]
+    o = 0
+    n = int(np.prod(lo_shape))
+    yl = M[:, o:o + n].reshape((T,) + tuple(lo_shape))
+    o += n
+    yh = []
+    for s in hi_shapes:
+        n = int(np.prod(s))
+        yh.append(M[:, o:o + n].reshape((T,) + tuple(s)))
+        o += n
+    assert o == M.shape[1]
+    return yl, yh
+
+
+def pyr_total(lo_shape, hi_shapes):
+    return int(np.prod(lo_shape)) + sum(int(np.prod(s)) for s in hi_shapes)
+
+
+def crop(a, size):
+    """Crop the trailing len(size) axes of a to `size`."""
+    sl = (Ellipsis,) + tuple(slice(0, n) for n in size)
+    return a[sl]
+
+
+def op_cap(dim, L):
+    """Largest number of basis inputs for which the full operator is
+    extracted; beyond it a generated subset of columns is used. Long filters
+    in 2-D make every level ~L x L whatever the image size, so they get the
+    subset earlier (cost, not correctness)."""
+    if dim == 1:
+        return 640
+    return 640 if L < 20 else 96
